@@ -118,6 +118,7 @@ def runLine (line : String) : String :=
   | "resp" :: args => opResp args
   | "send" :: args => opSend args
   | "sendpt" :: args => opSendPt args
+  | "sendf" :: args => opSendF args
   | "pfor" :: args => opPfor args
   | "mpart" :: args => opMpart args
   | "sess" :: args => opSess args
